@@ -107,6 +107,11 @@ func householderTridiagonalization(inSitu *InSitu, epsilon float64) (Matrix, Mat
       s.Add(s, t)
     }
     s.Sqrt(s)
+    // the reflection is the identity (beta = 0) if the column is already
+    // reduced, in which case A(k+1,k) keeps its value and sign
+    if beta.GetFloat64() == 0.0 {
+      s.Set(A.At(k+1,k))
+    }
 
     A.At(k+1,k+0).Set(s)
     A.At(k+0,k+1).Set(s)
